@@ -253,10 +253,15 @@ def gen_case(rng, tier, weights=None, maxlen=None):
             case.append(_publish(rng, sh))
     case.append("connect ok" if rng.random() < 0.93 else "connect refuse")
     _after_connect(sh, case[-1].endswith("ok"))
+    if sh.sock and cfg["ext"] and rng.random() < 0.9:
+        case.append("loop_write")
     if sh.sock and rng.random() < 0.9:
         case.append(_connack(rng, sh))
     for _ in range(n):
         case.append(_next_op(rng, sh))
+        # an external event loop services write registrations
+        if cfg["ext"] and sh.sock and rng.random() < 0.8 and not case[-1].startswith(("send", "tick", "cfg")):
+            case.append("loop_write")
     return case
 
 
@@ -421,7 +426,7 @@ class SessionStream:
     name = "session"
     props = ["C01", "C02", "C03", "C10", "C12", "C13", "C16"]
     keep_prefix = 1
-    monitors = {}
+    from streams.session_monitors import MONITORS as monitors
 
     def gen(self, rng, tier):
         return gen_case(rng, tier)
